@@ -77,11 +77,15 @@ def job_kernel(job, seed):
     cands = []
     tag = f'{kname}[{",".join(dtypes)};{angle_unit};{shapes}]'
     case = {'kind': 'kernel', 'kernel': kname, 'dtypes': list(dtypes), 'angle_unit': angle_unit, 'shapes': [str(s) for s in shapes]}
-    if len(paths) > 1 and all(p.exc is None and not p.inconclusive for p in paths):
+    if len(paths) > 1 and all(p.exc is None for p in paths) and any(not p.inconclusive for p in paths):
         # the implementation dispatches on its input: on every path the result must still be the documented value
         # (a path that answers NaN / inf for a valid input, or another formula, is a violation under its path condition)
         o = _ops()
         for k_, p in enumerate(paths):
+            if p.inconclusive:
+                # e.g. the concolic branch "x != the value float() handed out": not followed, and reported as such
+                obs.append({'name': f'{tag}:path{k_}:runs', 'status': 'inconclusive', 'detail': p.inconclusive, 't': 0})
+                continue
             outp = p.value
             for idx in np.ndindex(outp.shape):
                 im = dict(zip(outp.dims, idx, strict=True))
@@ -426,7 +430,14 @@ def replay_real(case):
             worst = max(worst, abs(got - expect) / abs(expect))
         return worst
 
-    def one_kernel(kname, dtypes):
+    def one_kernel(kname, dtypes, shapes=None):
+        bad = _one_kernel(kname, dtypes, None)
+        if shapes is not None and any(str(s_) == '0' for s_ in shapes):
+            # the operand layout of the symbolic case: 0-d operands where the case had them (each of 16 draws on its own)
+            bad += _one_kernel(kname, dtypes, [str(s_) == '0' for s_ in shapes])
+        return bad
+
+    def _one_kernel(kname, dtypes, scalar_mask):
         kinds, oracle, outunit, data_arg = kin.KERNELS[kname]
         f = getattr(rt, kname)
         import itertools as it
@@ -438,7 +449,16 @@ def replay_real(case):
             for (a, k), dt, u in zip(kinds.items(), dtypes, units, strict=True):
                 kwargs[a] = sc.array(dims=['x'], values=mk(k, dt, u, 16), unit=u)
             try:
-                out = f(**kwargs)
+                if scalar_mask is None:
+                    out = f(**kwargs)
+                else:
+                    full = kwargs
+                    outs = []
+                    for i in range(16):
+                        kw_i = {a: (v['x', i].copy() if m else v['x', i:i + 1].copy()) for (a, v), m in zip(full.items(), scalar_mask, strict=True)}
+                        o_i = f(**kw_i)
+                        outs.append(o_i if o_i.ndim else sc.concat([o_i], 'x'))
+                    out = sc.concat(outs, 'x')
             except Exception as e:  # noqa: BLE001
                 bad.append(f'{units}: raises {type(e).__name__}')
                 continue
@@ -466,7 +486,7 @@ def replay_real(case):
         b2 = one_kernel(kname, [case['second']] * n)
         return {'reproduced': bool(b2), 'detail': '; '.join(f'after a {case["first"]} call: {b}' for b in b2[:3])}
     if kind == 'kernel':
-        bad = one_kernel(case['kernel'], case['dtypes'])
+        bad = one_kernel(case['kernel'], case['dtypes'], case.get('shapes'))
         return {'reproduced': bool(bad), 'detail': '; '.join(bad[:3])}
     if kind in ('route', 'roundtrip'):
         bad = []
